@@ -14,7 +14,7 @@ func ParseExpression(name string, data *y.Yaml, level string, varGenerator *VarG
 		return nil, errors.New(fmt.Sprintf("missing targetClass in validation definition at [%d,%d]", l, c))
 	}
 	message, err := data.Get("message").Text()
-	if err != nil {
+	if err != nil || message == "" {
 		message = "Validation error"
 	}
 	exp := newTopLevelExpression(false, name, message, level, targetClass, varGenerator)
